@@ -118,12 +118,13 @@ def make_datetime_shim(clock):
 
 
 class StatProxy:
-    __slots__ = ('_st', 'st_dev', 'st_size')
+    __slots__ = ('_st', 'st_dev', 'st_size', 'st_ino')
 
-    def __init__(self, st, dev, size=None):
+    def __init__(self, st, dev, size=None, ino=None):
         self._st = st
         self.st_dev = dev
         self.st_size = st.st_size if size is None else size
+        self.st_ino = st.st_ino if ino is None else ino
 
     def __getattr__(self, name):
         return getattr(self._st, name)
@@ -133,6 +134,8 @@ class StatProxy:
             return self.st_dev
         if i == 6:
             return self.st_size
+        if i == 1:
+            return self.st_ino
         return self._st[i]
 
 
@@ -329,7 +332,7 @@ class Seam:
     def __init__(self, root, order_key=None, faults=None, mounts=None,
                  clock=None, virtual_root=False, step_cap=None,
                  read_chunks=None, stamp_writes=True, zero_size=None, size_override=None,
-                 default_dev=None, hook=None, order_alias=(), patch_time=False, pool=None):
+                 default_dev=None, hook=None, order_alias=(), patch_time=False, pool=None, ino_alias=None):
         self.root = os.path.realpath(root)
         # completion order of the loader's worker pool: 'keyed' (permuted by the run's key) or 'serial' (as shipped)
         if pool is None:
@@ -342,6 +345,7 @@ class Seam:
         for f in self.faults:
             f['_fired'] = 0
             f['_seen'] = 0
+        self.ino_alias = dict(ino_alias or {})   # rel path (resolved) -> rel path whose inode number it reports
         self.mounts = dict(mounts or {})   # rel path inside world -> dev id
         self.clock = clock or Clock(key=str(order_key), mode='micro')
         self.virtual_root = virtual_root
@@ -480,10 +484,17 @@ class Seam:
             size = 0
         elif rel in self.size_override and _stat.S_ISREG(st.st_mode):
             size = self.size_override[rel]
-        if self.default_dev is None and size is None:
+        ino = None
+        if self.ino_alias:
+            # inode numbers are unique per filesystem only: an object on another device may carry the number of
+            # an object of this one (two filesystem roots, say)
+            rr = os.path.relpath(realpath, self.root)
+            if rr in self.ino_alias:
+                ino = _o['os.stat'](os.path.join(self.root, self.ino_alias[rr])).st_ino
+        if self.default_dev is None and size is None and ino is None:
             return st
         dev = st.st_dev if self.default_dev is None else self._dev_for(realpath)
-        return StatProxy(st, dev, size)
+        return StatProxy(st, dev, size, ino)
 
     def _realpath(self, p):
         self._inside += 1
